@@ -153,6 +153,7 @@ def run(case, tape=None):
         grid.getAllData()[:] = cm.local(G, mgr.getLayout(case['start']))
         layout = case['start']
         saved = None
+        has_save = bool(case['save'])
         states = set()
 
         def compare(step, op):
@@ -174,12 +175,12 @@ def run(case, tape=None):
             kind = op[0]
             legal = True
             if kind in ('save', 'restore', 'free'):
-                if not case['save']:
-                    legal = False
-                elif kind == 'save' and saved is not None:
+                if kind == 'save' and saved is not None:
                     legal = False
                 elif kind in ('restore', 'free') and saved is None:
                     legal = False
+                elif kind == 'save' and not has_save:
+                    legal = None          # not named by the property: refusing and allocating on demand are both fine
             try:
                 if kind == 'set':
                     grid.setLayout(op[1])
@@ -198,7 +199,14 @@ def run(case, tape=None):
                 raise
             except Exception as e:   # noqa
                 raised = e
-            if legal and raised is not None:
+            if legal is None:
+                if raised is None:
+                    has_save = True
+                    legal = True
+                else:
+                    legal = False
+                    raised = raised
+            elif legal and raised is not None:
                 raise raised
             if not legal:
                 if raised is None:
